@@ -3,10 +3,11 @@
    the ontology-level properties.  The harness builds the same world with the
    real crate and prints the same observation. *)
 From HpoV Require Import Gen.Consts Model.Base Model.Group Model.Onto Model.F32 Model.IC
-  Model.Query Model.Dump Model.Script.
+  Model.Query Model.Dump Model.Script Model.Binary.
 
 Inductive world :=
-| WBuilder (s : script).
+| WBuilder (s : script)
+| WBytes (b : list N).
 
 (* the f32::ln oracle table travels with the case *)
 Definition winput : Type := world * list (N * N).
@@ -16,6 +17,12 @@ Definition wobs : Type := res (list N * res donto).
 Definition build_world (tbl : list (N * N)) (w : world) : res (list N * res onto) :=
   match w with
   | WBuilder s => run_script (ic32 (table_oracle tbl)) s
+  | WBytes b =>
+      match decode (ic32 (table_oracle tbl)) b with
+      | Panic => Panic
+      | Fuel => Fuel
+      | r => Ok ([], r)
+      end
   end.
 
 Definition dump_res (r : res onto) : res donto :=
